@@ -1,4 +1,4 @@
-REPO_COMMITS = ["0e45a8e", "f51d74e", "e08c0a5", "7c6f8e4", "33cf0bf", "a187bb0", "a08c8ef", "a09d5b7"]
+REPO_COMMITS = ["0e45a8e", "f51d74e", "e08c0a5", "7c6f8e4", "33cf0bf", "a187bb0", "a08c8ef", "a09d5b7", "0ea38a2", "2e5f874"]
 NOT_APPLICABLE = {}
 CHECKS = {
  "C05": dict(
@@ -29,4 +29,8 @@ CHECKS = {
   text="Held-on-what-was-observed: wrappers on to_native/to_big_endian/to_little_endian/byteswap judge each observed call against a pre-call snapshot: field structure, declared order of every multi-byte field equals the requested one (or dtype untouched with keep_dtype), element values equal through the (possibly swapped) dtype, independence of the inplace=False result, identity of the inplace=True result; every call is applied twice for idempotence / swap-swap restoration; predicates are compared with the declared order on every spelling, descr_to_native with dtype.newbyteorder('=').",
   note="Trusts numpy astype between byte orders and dtype.newbyteorder. Little-endian host only (the big-endian-host branches of the predicates cannot execute here).",
   technique="API-boundary monitor with snapshot-based value/order oracle; two-step call histories"),
+ "C08": dict(
+  text="Held-on-what-was-observed: wrappers on sphdist and gcirc compare every returned separation with atan2(|a x b|, a.b) evaluated in long double from the same float64 inputs (tolerances 1e-11 / 2e-6 deg from the statement), check finiteness and range, and the driver checks symmetry, +360 invariance, exact zero for identical inputs and scalar-vs-array agreement on adversarial families (tiny, near/exactly antipodal, the 170-180 band around the formula switch, polar, seam) in every input form and unit combination.",
+  note="Trusts numpy long-double trigonometry (80-bit on this host).",
+  technique="API-boundary monitor with long-double geometric oracle; metamorphic relations in the driver"),
 }
